@@ -146,16 +146,18 @@ def _alarm(_sig, frm):
     raise _Timeout(user)
 
 
-def evaluate(src: str, experimental: bool = True, limit: int | None = None) -> dict:
+def evaluate(src: str, experimental: bool = True, limit: int | None = None, pre: str = "", post: str = "") -> dict:
     """outcome of one program (module text); a `hang` is confirmed by a second run with a six times longer limit (the
-    machine may be heavily loaded)"""
-    o = _evaluate(src, experimental, limit or TIME_LIMIT)
+    machine may be heavily loaded).  `pre` / `post` are executed in the module's namespace before / after `src` but are not
+    part of its source file (notebook style: imports ran in an earlier cell, the compile call comes in a later one), so `src`
+    can start with `@guppy` on line 1 and end with the last line of a function body."""
+    o = _evaluate(src, experimental, limit or TIME_LIMIT, pre, post)
     if o["class"] == "hang" and limit is None:
-        o = _evaluate(src, experimental, 6 * TIME_LIMIT)
+        o = _evaluate(src, experimental, 6 * TIME_LIMIT, pre, post)
     return o
 
 
-def _evaluate(src: str, experimental: bool, limit: int) -> dict:
+def _evaluate(src: str, experimental: bool, limit: int, pre: str = "", post: str = "") -> dict:
     from guppylang_internals.diagnostic import DiagnosticsRenderer
     from guppylang_internals.engine import DEF_STORE
     from guppylang_internals.error import GuppyComptimeError, GuppyError
@@ -178,11 +180,17 @@ def _evaluate(src: str, experimental: bool, limit: int) -> dict:
     try:
         try:
             code = compile(src, fn, "exec")
+            code_pre = compile(pre, f"<verif-c02-pre-{n}>", "exec") if pre else None
+            code_post = compile(post, f"<verif-c02-post-{n}>", "exec") if post else None
         except (SyntaxError, ValueError, RecursionError, MemoryError) as e:
             return {"class": "python", "exc": type(e).__name__}
         try:
             with contextlib.redirect_stdout(_DEVNULL):  # programs may print (comptime(print(1)), traced bodies)
+                if code_pre is not None:
+                    exec(code_pre, m.__dict__)
                 exec(code, m.__dict__)
+                if code_post is not None:
+                    exec(code_post, m.__dict__)
             return {"class": "ok"}
         except GuppyError as e:
             signal.alarm(0)
@@ -339,7 +347,7 @@ def worker(args) -> dict:
 
     trace = hashlib.sha1()
 
-    def note(src, o, kind):
+    def note(src, o, kind, pre="", post=""):
         nonlocal evals
         evals += 1
         c = o["class"]
@@ -357,12 +365,30 @@ def worker(args) -> dict:
             sig = o["sig"]
             old = fails.get(sig)
             if old is None or len(src) < len(old["program"]):
-                fails[sig] = {"program": src, "outcome": o, "kind": kind, "n": old["n"] if old else 0}
+                fails[sig] = {"program": src, "outcome": o, "kind": kind, "n": old["n"] if old else 0, "pre": pre, "post": post}
             fails[sig]["n"] += 1
         if len(samples) < 2 and c == "user" and kind not in ("plain", "base") and len(src) < 900:
             samples.append({"stream": stream, "mutation": kind, "diag": o["diag"], "program": src})
 
-    if stream == "plain":
+    import c02_layout
+
+    def relayout(src, o, r1, r2, exp=True):
+        """with probability 0.12 re-run a rejected program in one random layout of its source file"""
+        if o["class"] != "user" or r1 >= 0.12:
+            return
+        ls = c02_layout.layouts(src)
+        if ls:
+            name, pre, text, post = ls[int(r2 * len(ls)) % len(ls)]
+            note(text, evaluate(text, experimental=exp, pre=pre, post=post), "layout:" + name, pre, post)
+
+    if stream == "layout":
+        for i in extra:
+            origin, src = POOL[i]
+            for name, pre, text, post in c02_layout.layouts(src):
+                o = evaluate(text, experimental=True, pre=pre, post=post)
+                cnt["layout-kind:" + name + ":" + o["class"]] += 1
+                note(text, o, "layout:" + name, pre, post)
+    elif stream == "plain":
         for i in extra:
             origin, src = POOL[i]
             for exp in ((True, False) if origin.startswith("error/") else (True,)):
@@ -380,7 +406,11 @@ def worker(args) -> dict:
                 m2 = mu.mutate(ms)
                 if m2 is not None:
                     kind, ms = kind + "+" + m2[0], m2[1]
-            note(ms, evaluate(ms, experimental=rng.random() < 0.8), kind)
+            exp = rng.random() < 0.8
+            r1, r2 = rng.random(), rng.random()  # drawn unconditionally: the mutant stream does not depend on outcomes
+            o = evaluate(ms, experimental=exp)
+            note(ms, o, kind)
+            relayout(ms, o, r1, r2, exp)
     elif stream == "gen":
         g = c02_gen.Gen(rng)
         while evals < n:
@@ -400,7 +430,10 @@ def worker(args) -> dict:
                     if m2 is not None:
                         kind, mf = kind + "+" + m2[0], m2[1]
                 ms = wrap(mf)
-                note(ms, evaluate(ms), kind)
+                r1, r2 = rng.random(), rng.random()
+                o = evaluate(ms)
+                note(ms, o, kind)
+                relayout(ms, o, r1, r2)
     elif stream == "sweep":
         for (i, a, fi) in extra:
             mn, nm = SWEEP[i]
